@@ -534,3 +534,23 @@ def increment_operand(e):
         return None
     rest = {a: c for a, c in atoms.items() if a is not me[0]}
     return T.mk_aff(rest, k)
+
+
+def check_event_classes(ctx, eng, names=None):
+    """Applications tell events apart with isinstance: the public event
+    classes are pairwise unrelated (each derives from Event and from nothing
+    else), so that no event is also an instance of another kind of event."""
+    bad = []
+    n = 0
+    for cq, c in sorted(eng.m.classes.items()):
+        if c.module != 'events' or c.name.startswith('_') or \
+                c.name == 'Event':
+            continue
+        if names is not None and c.name not in names:
+            continue
+        n += 1
+        if list(c.bases) != ['Event']:
+            bad.append('%s derives from %s' % (c.name, list(c.bases)))
+    ctx.ob('TAB.event-classes', 'events', 'event classes are unrelated',
+           n > 0 and not bad, '; '.join(bad) or '%d public event classes, '
+           'each deriving from Event only' % n)
